@@ -863,3 +863,48 @@ func checkC15(rc *RunCtx) *Report {
 }
 
 func init() { registerBubble("C15", checkC15) }
+
+// C15race – the free-running pass for the race detector: the same thread bodies as C15, without the scheduler (a
+// cooperative scheduler's hand-offs are happens-before edges that would blind the detector). The binary is built with
+// -race by `check C15 thorough`; a report of the detector ends the process (GORACE=halt_on_error=1) and the calling
+// script turns it into a VIOLATION. It decides nothing by itself: it only makes unsynchronised accesses visible that
+// the scheduled exploration cannot see.
+func checkC15Race(rc *RunCtx) *Report {
+	rep := newReport("other")
+	scs := c15Scenarios(true)
+	runs := 0
+	freeRunning = true
+	for store := range c15StoreNames {
+		for _, sc := range scs {
+			for i := 0; i < envInt("VERIF_RACE_RUNS", 5); i++ {
+				at := newSimAtomix(nil)
+				st, err := c15NewStore(store, at)
+				if err != nil {
+					panic(err)
+				}
+				e := &c15Env{at: at, st: st, initial: map[string]c15Rec{}}
+				for j, k := range sc.Keys {
+					r, err := st.Create(context.Background(), k, 100+j)
+					if err != nil {
+						panic(err)
+					}
+					e.initial[k] = r
+					if v3, ok := st.(c15TxV3); ok {
+						v3.idx[k] = r.Index
+					}
+				}
+				fmt.Printf("EXEC race store=%d scenario=%q run=%d\n", store, sc.Name, i)
+				x := runE2(sc.Threads(e), func(g func(thread, method string)) {}, nil) // no gate: nothing is ever held
+				x.Close()
+				at.Stop()
+				runs++
+			}
+		}
+	}
+	rep.Coverage["explanation"] = fmt.Sprintf("%d free-running executions of the C15 thread bodies under the Go race detector; no report", runs)
+	rep.Coverage["evaluations"] = runs
+	rep.Coverage["distinct_nontrivial"] = len(scs) * len(c15StoreNames)
+	return rep
+}
+
+func init() { registerBubble("race-C15", checkC15Race) }
